@@ -246,7 +246,7 @@ def _strategy():
                   'start'),
         hooks=True, exec_fail=True, children=1, kill_cmd=True,
         signal_cmd=True, respawn_false=True, rm=True, max_ops=24,
-        set_other=True, job_control=True, config=True)
+        set_other=True, job_control=True, config=True, ondemand=True)
 
     @st.composite
     def case(draw):
